@@ -64,6 +64,10 @@ type (
 		blks  []B
 		reals []RealReg
 
+		// evicted is the virtual register, with the real register it occupied, which the last call of
+		// findOrSpillAllocatable spilled to make room, if any. See storeEvicted.
+		evicted VReg
+
 		// Following two fields are updated while iterating the blocks in the reverse postorder.
 		state       state[I, B, F]
 		blockStates wazevoapi.IDedPool[blockState[I, B, F]]
@@ -265,6 +269,7 @@ func (vs *vrState[I, B, F]) recordReload(f F, blk B) {
 
 func (a *Allocator[I, B, F]) findOrSpillAllocatable(s *state[I, B, F], allocatable []RealReg, forbiddenMask RegSet, preferred RealReg) (r RealReg) {
 	r = RealRegInvalid
+	a.evicted = VRegInvalid
 	// First, check if the preferredMask has any allocatable register.
 	if preferred != RealRegInvalid && !forbiddenMask.has(preferred) && !s.regsInUse.has(preferred) {
 		return preferred
@@ -311,8 +316,21 @@ func (a *Allocator[I, B, F]) findOrSpillAllocatable(s *state[I, B, F], allocatab
 	if wazevoapi.RegAllocLoggingEnabled {
 		fmt.Printf("\tspilling v%d when lastUseAt=%d and regsInUse=%s\n", spillVReg.ID(), lastUseAt, s.regsInUse.format(a.regInfo))
 	}
+	a.evicted = spillVReg.SetRealReg(r)
 	s.releaseRealReg(r)
 	return r
+}
+
+// storeEvicted stores the virtual register which the last call of findOrSpillAllocatable spilled, if any, before instr.
+//
+// A spilled register is reloaded from its spill slot, which is otherwise written once, after the definition of the
+// register. The backends also modify registers in place (two-address instructions) and define temporaries more than once,
+// so the slot must get what the register holds when its real register is taken.
+func (a *Allocator[I, B, F]) storeEvicted(f F, instr I) {
+	if a.evicted.Valid() {
+		f.StoreRegisterBefore(a.evicted, instr)
+		a.evicted = VRegInvalid
+	}
 }
 
 func (s *state[I, B, F]) findAllocatable(allocatable []RealReg, forbiddenMask RegSet) RealReg {
@@ -767,6 +785,7 @@ func (a *Allocator[I, B, F]) allocBlock(f F, blk B) {
 					r = a.findOrSpillAllocatable(s, a.regInfo.AllocatableRegisters[use.RegType()], currentUsedSet,
 						// Prefer the desired register if it's available.
 						vs.desiredLoc.realReg())
+					a.storeEvicted(f, instr)
 					vs.recordReload(f, blk)
 					f.ReloadRegisterBefore(use.SetRealReg(r), instr)
 					s.useRealReg(r, vs)
@@ -868,6 +887,7 @@ func (a *Allocator[I, B, F]) allocBlock(f F, blk B) {
 					if r == RealRegInvalid {
 						typ := def.RegType()
 						r = a.findOrSpillAllocatable(s, a.regInfo.AllocatableRegisters[typ], RegSet(0), RealRegInvalid)
+						a.storeEvicted(f, instr)
 					}
 					s.useRealReg(r, vState)
 				}
